@@ -101,7 +101,10 @@ def codepoints(quick):
         for x in (e - 1, e, e + 1):
             if x >= 0:
                 s.add(x)
-    s |= set(range(0, 0x180 if quick else 0x300))
+    s |= set(range(0, 0x180))
+    if not quick:
+        # thorough: the whole Basic Multilingual Plane and a regular grid over the other planes
+        s |= set(range(0, 0x10000)) | set(range(0x10000, 0x110000, 0x101))
     s |= {0x2028, 0x2029, 0x85, 0xA0, 0xAD, 0x3000, 0xD7FF, 0xD800, 0xDFFF, 0xE000, 0xFEFF, 0xFFFD, 0xFFFE,
           0xFFFF, 0x10000, 0x1F600, 0x10FFFF, 0x0394, 0x4E2D}
     return sorted(s)
@@ -217,15 +220,17 @@ def run(ctx):
     step = 0x110000 // 64 + 1
     ctx.pmap(shard_table, [(lo, min(lo + step, 0x110000)) for lo in range(0, 0x110000, step)], into=acc)
     cps = codepoints(ctx.quick)
-    ctx.pmap(shard_positions, [cps[i::64] for i in range(64)], into=acc)
+    nsh = 64 if ctx.quick else 1024
+    ctx.pmap(shard_positions, [cps[i::nsh] for i in range(nsh)], into=acc)
     cov = {
         "evaluations": acc.n, "distinct_nontrivial": acc.nontrivial,
         "rule": "(a) all 1,114,112 code points x 5 grammars against the specification tables; (b) %d code points "
-                "(every range edge +/-1, U+0000..U+%04X exhaustively, surrogates, plane boundaries, specials) x %d "
+                "(every range edge +/-1, %s exhaustively, surrogates, plane boundaries, specials) x %d "
                 "positions x {PVL, ODL, PDS3, default} (ISIS run for information only); non-trivial = a table entry "
                 "compared, or a position case where the property demands a specific outcome (LexerError with "
                 "consistent attributes / string unchanged / comment ignored / text after END ignored)"
-                % (len(cps), (0x180 if ctx.quick else 0x300) - 1, len(POSITIONS)),
+                % (len(cps), "U+0000..U+017F" if ctx.quick else "U+0000..U+FFFF, every 257th code point above",
+                   len(POSITIONS)),
         "outcome_histogram": dict(acc.outcomes),
         "samples": acc.samples[:6], "exhaustive": True,
     }
